@@ -58,12 +58,19 @@ def parse(out):
 
 def model_cfg(c):
     """the code version the model has to follow, as the extractor reads it off the tree (tie 1 says whether it is
-    the repaired one the theorems are about)"""
+    the repaired one the theorems are about): the six traversal bits and which diffEnv rule the tree has"""
     ok, o = c.extract("Env")
+    cfg, decide = None, "fixed"
     for line in (o or "").split("\n"):
         if line.startswith("cfg="):
-            return line[4:].strip()
-    return None
+            cfg = line[4:].strip()
+        if line.startswith("decide="):
+            decide = line[7:].strip()
+    model_cfg.decide = decide
+    return cfg
+
+
+model_cfg.decide = "fixed"
 
 
 def run(c):
@@ -79,7 +86,7 @@ def run(c):
         "process in starlark.ExecFile's freeze)",
     ]
     c.coverage["rule"] = (
-        "generated dawn projects: each of 30 unit kinds alone (recursion, mutual recursion, closures, defaults, nested defs / "
+        "generated dawn projects: each of 31 unit kinds alone (recursion, mutual recursion, closures, defaults, nested defs / "
         "lambdas / comprehensions, containers of 0..3000 elements, shared / cyclic / 1500-deep data, a recursive function in front "
         "of shared lists / dicts / sets / functions, sets and dicts of 12..40-byte strings and bytes as globals / defaults / free "
         "variables, every predeclared kind, "
@@ -87,7 +94,8 @@ def run(c):
         "keyword-only parameters, signatures, builtin aliases, value kinds) for several parameter draws, then random "
         "combinations of 1-4 units in one or two packages sharing a helper module. Per program, in child processes: load + "
         "fingerprint in three separate processes (BUILD modules forced to load in opposite orders); decode(fingerprint) compared "
-        "with the extracted graph incl. aliasing; each sampled mutation; build twice. "
+        "with the extracted graph incl. aliasing; each sampled mutation; build twice; build, apply an edit that changes the "
+        "fingerprint (always the edits between ==-equal values: 1 / 1.0, 0.0 / -0.0, alias / copy), build: the target re-executes. "
         "A case is non-trivial when the real code returned a fingerprint; distinct by driver input line.")
     cfg = model_cfg(c)
     c.prove(extract=False)
@@ -101,7 +109,7 @@ def run(c):
     c.coverage["model_cfg"] = cfg
     scratch = vcheck.scratch("env")
     try:
-        args = [exe, "-seed", str(c.seed), "-tier", c.tier, "-cfg", cfg, "-scratch", scratch,
+        args = [exe, "-seed", str(c.seed), "-tier", c.tier, "-cfg", cfg, "-decide", model_cfg.decide, "-scratch", scratch,
                 "-corpus", os.path.join(vcheck.VERIF, "corpus", "C08")]
         if os.environ.get("VERIF_ENV_BUDGET"):
             args += ["-budget", os.environ["VERIF_ENV_BUDGET"]]
@@ -126,7 +134,7 @@ def run(c):
             c.correspond(stream, drv, ps, nontrivial=lambda i, o: o.startswith("ok") or o in ("upToDate", "rerun", "buildError"))
     for k, label in [("fingerprints", "env.judge.terminates"), ("determinism_comparisons", "env.judge.deterministic"),
                      ("sensitivity_comparisons", "env.judge.sensitive"), ("second_build_targets", "env.judge.second_build"),
-                     ("decoded_wiring_checks", "env.judge.decoded_wiring"),
+                     ("decoded_wiring_checks", "env.judge.decoded_wiring"), ("rebuild_after_edit_targets", "env.judge.rebuild_after_edit"),
                      ("insensitivity_comparisons", "env.observe.insensitive")]:
         c.count(label, counts.get(k, 0), hist=hists.get("features") if k == "fingerprints" else None,
                 sample={"judge": label, "evaluations": counts.get(k, 0)})
@@ -144,7 +152,8 @@ def replay(c, case):
     cfg = model_cfg(c) or "101111"
     scratch = vcheck.scratch("env-replay")
     try:
-        p = subprocess.run([exe, "-cfg", cfg, "-scratch", scratch, "-replay", json.dumps(case["input"])], stdout=subprocess.PIPE)
+        p = subprocess.run([exe, "-cfg", cfg, "-decide", model_cfg.decide, "-scratch", scratch, "-replay", json.dumps(case["input"])],
+                           stdout=subprocess.PIPE)
     finally:
         shutil.rmtree(scratch, ignore_errors=True)
     out = p.stdout.decode("utf-8", "replace")
